@@ -440,6 +440,8 @@ def Op.update? : Op → Option Update
   | .delta u f recs _ _ => some ⟨.vuln, u, f, recs⟩
   | .store _ _ => none
   | .failed k u f recs => some ⟨k, u, f, recs⟩
+  | .tear => none
+  | .newfile => none
 
 /-- A history of recording calls only (failed ones included). -/
 def RecOnly (ops : List Op) : Prop := ∀ op ∈ ops, op.update?.isSome = true
@@ -537,6 +539,8 @@ theorem inv_step (w : World) (op : Op) (h : Inv w) : Inv (step w op).1 := by
         have : e ∈ es := by rw [hpre]; exact List.mem_append_right _ he'
         exact h.nonNil e (hperm.mem_iff.1 this)
   | failed k u f recs => exact h
+  | tear => exact ⟨h.distinct, h.nonNil⟩
+  | newfile => exact ⟨h.distinct, h.nonNil⟩
 
 theorem inv_run (ops : List Op) : Inv (Sm.run step World.init ops) :=
   Sm.invariant_run (Inv := Inv) (fun w op h => inv_step w op h) ops World.init inv_init
@@ -568,6 +572,8 @@ theorem run_recOnly (ops : List Op) : ∀ (w : World), RecOnly ops →
       · rw [he]; simp
     | store order faults => simp [Op.update?] at hop
     | failed k u f recs => simp [step, Op.update?]
+    | tear => simp [Op.update?] at hop
+    | newfile => simp [Op.update?] at hop
 
 /-- Store then Load after a history of recording calls: the loader yields, in
     the order the map was visited, exactly the non-empty recorded updates. -/
@@ -633,6 +639,8 @@ def Op.fitOk : Op → Prop
   | .delta _ _ recs _ _ => ∀ r ∈ recs, r.fits = true
   | .store _ faults => faults = []
   | .failed _ _ _ _ => True
+  | .tear => False
+  | .newfile => False
 
 /-- Every recorded record fits the scanner buffer; every disk buffer reads back. -/
 def FitOps (ops : List Op) : Prop := ∀ op ∈ ops, op.fitOk
@@ -781,6 +789,8 @@ theorem flushed_run (ops : List Op) : ∀ (w : World) (F : List Entry), Flushed 
         exact ⟨F', h1, by simpa [returned, Op.update?] using h2⟩
       | failed k u f recs =>
         exact ⟨F, h, by simp [step, returned, Op.update?]⟩
+      | tear => exact absurd (hfit .tear (by simp)) (by simp [Op.fitOk])
+      | newfile => exact absurd (hfit .newfile (by simp)) (by simp [Op.fitOk])
     obtain ⟨F1, hF1, hp1⟩ := key
     obtain ⟨F', hF', hp'⟩ := ih (step w op).1 F1 hF1 hfit' hnr2
     refine ⟨F', hF', ?_⟩
